@@ -1,5 +1,4 @@
 SPECIFICATION TSpecLight
 CONSTANTS MaxN = 4  MaxJunk = 3
-INVARIANT Faithful
-POSTCONDITION ExportRejected
+INVARIANT Conforms
 CHECK_DEADLOCK FALSE
